@@ -376,6 +376,7 @@ impl Base {
             goal_fail_at: None,
             goal_fail_from: None,
             prelife: vec![],
+            step_raise: 1.0,
             params,
             tag: tag.into(),
         }
